@@ -21,9 +21,11 @@ def model(tier):
 
 def fieldless(E):
     """unit variants only, except the default catch-all (which never enters the map)"""
-    for v in E["variants"]:
+    for k, v in enumerate(E["variants"]):
         if not v["def"]:
-            v["kind"], v["fields"], v["nf"], v["dwith"] = "unit", [], 0, ""
+            # field-less: a unit variant, or an empty field list `V()` / `V {}` where the sampled variant had fields
+            kind = v["kind"] if (v["kind"] != "unit" and (k + len(E["variants"])) % 2) else "unit"
+            v["kind"], v["fields"], v["nf"], v["dwith"] = kind, [], 0, ""
     E["generics"] = "none"
     E["variants"] = [v for v in E["variants"] if not uncarrier(v)]
     return E
